@@ -230,13 +230,14 @@ pub fn exec(op: &str, a: &[String]) -> Option<Reply> {
                 Err(_) => "err",
             }))
         }
-        // encode_charset unwraps from_utf8(value) before looking at the label
+        // encode_charset rejects ill-formed UTF-8 before looking at the label (an unwrap panic before e4ac0e1)
         ("c22.charset.panics", [b]) => {
             let b = unhex(b)?;
             let r = run_with("encode_charset!(.b, \"utf-8\")", "b", &b, &[]);
             Some(Reply::plain(match r {
                 Err(e) if is_panic(&e) => "panic",
-                _ => "nopanic",
+                Err(_) => "err",
+                Ok(_) => "ok",
             }))
         }
         ("o.c22", [codec, opts, b]) => {
